@@ -11,7 +11,10 @@ V        := $(abspath .)
 B        := $(BUILD)/$(FLAVOUR)
 GEN      := $(BUILD)/gen
 
+# -DNDEBUG: the configuration crab's own build and test suite use (CMAKE_BUILD_TYPE with -DNDEBUG); the
+# 'asan' flavour keeps assertions enabled for triage.
 COMMON := -std=gnu++17 -O1 -w -fno-omit-frame-pointer
+NDBG := -DNDEBUG
 ifeq ($(FLAVOUR),fuzz)
   SANC := -g -fsanitize=fuzzer-no-link,address,undefined -fno-sanitize=vptr
   SANL := -fsanitize=fuzzer,address,undefined
@@ -19,6 +22,7 @@ ifeq ($(FLAVOUR),fuzz)
   DRVLIBS :=
 else ifeq ($(FLAVOUR),asan)
   SANC := -g -fsanitize=address,undefined -fno-sanitize=vptr -fno-sanitize-recover=undefined
+  NDBG :=
   SANL := -fsanitize=address,undefined
   DRIVER := $(B)/core/driver_rc.o
   DRVLIBS := -lrapidcheck
@@ -30,7 +34,7 @@ else
 endif
 
 INC := -I$(V)/shadow -I$(GEN) -I$(CRAB_SRC)/include -I$(V)/src
-CRABFLAGS := $(COMMON) $(SANC) $(INC) -include crab/support/debug.hpp
+CRABFLAGS := $(COMMON) $(NDBG) $(SANC) $(INC) -include crab/support/debug.hpp
 
 # name -> source file is src/<name up to first '-'>.cpp ; the rest of the name
 # is passed as -DVERIF_VARIANT_<suffix> and -DVERIF_VARIANT="<suffix>"
